@@ -235,6 +235,19 @@ pub fn run(tier: Tier, seed: u64) -> i32 {
             cases.push(c);
         }
     }
+    // device values that do not fit the width of the output they are reported for (a sign-extended
+    // reading, stray high bits): an expression reads the value the driver returned
+    {
+        let l = |n: i64| Entry::Lit(n, Radix::Dec);
+        let rowq = || Stmt::Row(vec![Entry::Paren(name("Q")), l(0), Entry::X, Entry::X]);
+        let sigs = vec![Sig::inp("A", 16, 0), Sig::inp("CLK", 1, 0), Sig::out("Q", 4), Sig::out("DONE", 1)];
+        let body = vec![rowq(), Stmt::Let("a".into(), bin(BinOp::Add, name("Q"), lit(1))), Stmt::Row(vec![Entry::Paren(name("a")), Entry::C, Entry::X, Entry::X]), Stmt::Row(vec![Entry::Paren(bin(BinOp::Lt, name("Q"), lit(0))), l(0), Entry::X, Entry::X]), Stmt::Repeat(bin(BinOp::Shr, name("Q"), lit(4)), vec![Entry::Paren(name("n")), l(0), Entry::X, Entry::X]), rowq()];
+        let prog = Program { header: header.clone(), body };
+        let menu: Vec<MenuItem> = [-1i64, 16, 0x1F, 300, 5].iter().map(|q| MenuItem::ans(vec![("Q".into(), V::Num(*q)), ("DONE".into(), V::Num(3))])).collect();
+        for ov in [true, false] {
+            cases.push(Case::new(&format!("device values outside the width of their output ({})", if ov { "Ov" } else { "Fw" }), prog.clone(), sigs.clone(), ov, menu.clone(), menu.clone(), 10));
+        }
+    }
     // a real output called like the expected column of a bidirectional signal: `B_out` in an
     // expression is that output, `B` the bidirectional signal, whatever order the driver lists them in
     {
